@@ -45,6 +45,8 @@ pub fn generate(prop: &str, seed: u64, tier: Tier) -> Program {
             2 | 3 => Program::Rt(rt::generate(prop, &mut rng, tier)),
             _ => Program::Net(net_gen::gen_c03_net(&mut rng, tier)),
         },
+        // one C10 program in ten is a network simulation that is paused and fed with messages from outside
+        "C10" if rng.chance(1, 10) => Program::Net(net_gen::gen_c10_net(&mut rng, tier)),
         "C02" | "C10" | "C11" => Program::Rt(rt::generate(prop, &mut rng, tier)),
         "C08" => Program::Net(net_gen::gen_c08(&mut rng, tier)),
         "C07" => Program::Net(net_gen::gen_c07(&mut rng, tier)),
@@ -124,7 +126,7 @@ fn follow_up_ok(prop: &str, what: &str, info: &mut RunInfo) -> bool {
 
 fn execute_net(prop: &str, p: &net::NetProgram) -> RunInfo {
     let mut info = RunInfo::default();
-    let opts = net::RunOpts { collect_gate_info: prop == "C08", twin: false };
+    let opts = net::RunOpts { collect_gate_info: prop == "C08", twin: false, inject_before_start: None };
     let res = net::run_net(p, &opts);
     info.trace_hash = net::trace_hash(&res.trace);
     if !matches!(prop, "C04" | "C20") && net_oracles::foreign_records(p, &res) {
@@ -140,7 +142,7 @@ fn execute_net(prop: &str, p: &net::NetProgram) -> RunInfo {
             if net::trace_hash(&again.trace) != info.trace_hash {
                 return info;
             }
-            let twin = net::run_net(p, &net::RunOpts { collect_gate_info: false, twin: true });
+            let twin = net::run_net(p, &net::RunOpts { collect_gate_info: false, twin: true, inject_before_start: None });
             net_oracles::check_c13(p, &res, &twin, &mut info);
             if !info.has("C13") {
                 follow_up_ok("C13", "a simulation with panicking modules", &mut info);
@@ -183,6 +185,12 @@ fn execute_net(prop: &str, p: &net::NetProgram) -> RunInfo {
             info.nontrivial = nontrivial;
         }
 
+        "C10" => {
+            // `res` is the stepped run (paused, messages put onto gates from outside); the reference is the uninterrupted
+            // run that finds the same messages in the event set from the start
+            let reference = net::run_net(p, &net::RunOpts { collect_gate_info: false, twin: false, inject_before_start: Some(res.injected_at.clone()) });
+            net_oracles::check_c10_net(p, &res, &reference, &mut info);
+        }
         "C08" => net_oracles::check_c08(p, &res, &mut info),
         "C07" => net_oracles::check_c07(p, &res, &mut info),
         "C12" => net_oracles::check_c12(p, &res, &mut info),
